@@ -56,7 +56,8 @@ Definition sub_reverse (d : dir) (s : morx_subtable) : bool :=
 
 (* ---- state threaded through `apply`: buffer, max_ops, ambiguity flags, event log *)
 Definition event := (N * bool)%type.     (* subtable kind code, glyph string changed *)
-Record pstate := mkP { p_buf : zbuf; p_ops : Z; p_amb : N; p_events : list event }.
+Record pstate := mkP { p_buf : zbuf; p_ops : Z; p_amb : N; p_events : list event;
+                       p_ecap : nat (* evaluation cut for streaming loops, see Morx.eval_fuel; 0 = none *) }.
 
 Definition gids (b : zbuf) : list N := map gid (arr b).
 Fixpoint nlist_eqb (a b : list N) : bool :=
@@ -72,11 +73,11 @@ Definition maybe_reverse (r : bool) (b : zbuf) : result zbuf := if r then revers
 Definition run_subtable_g (ng : N) (d : dir) (gate : option rgate) (s : morx_subtable) (p : pstate) : result pstate :=
   let r := sub_reverse d s in
   do b0 <- maybe_reverse r (p_buf p);
-  do res <- apply_subtable (ms_kind s) ng gate b0 (p_ops p);
+  do res <- apply_subtable (ms_kind s) ng gate (p_ecap p) b0 (p_ops p);
   let '(b1, ops1, amb1) := res in
   do b2 <- maybe_reverse r b1;
   Ok (mkP b2 ops1 (N.lor (p_amb p) amb1)
-          ((kind_code (ms_kind s), negb (nlist_eqb (gids (p_buf p)) (gids b2))) :: p_events p)).
+          ((kind_code (ms_kind s), negb (nlist_eqb (gids (p_buf p)) (gids b2))) :: p_events p) (p_ecap p)).
 
 Definition run_subtable (ng : N) (d : dir) (s : morx_subtable) (p : pstate) : result pstate := run_subtable_g ng d None s p.
 
@@ -133,7 +134,7 @@ Definition is_deleted (i : info) : bool := gid i =? DELETED_GLYPH.
 Record shaped := mkShaped { sh_glyphs : list (N * N); sh_amb : N; sh_events : list event }.
 
 (* feat: the font's feature name table (None = no `feat`); ufs: the user features of the request *)
-Definition shape_morx_feat (f : font) (feat : option feat_table) (ufs : list ufeature)
+Definition shape_morx_feat_cap (ecap : nat) (f : font) (feat : option feat_table) (ufs : list ufeature)
            (d : dir) (lvl : N) (text : list (N * N)) : result shaped :=
   (* shape.rs: `if buffer.len > 0 { shape_internal }` — an empty buffer is returned as it is *)
   if (length text =? 0)%nat then Ok (mkShaped [] 0 []) else
@@ -146,13 +147,15 @@ Definition shape_morx_feat (f : font) (feat : option feat_table) (ufs : list ufe
   (* hb_aat_layout_substitute: add_feature for every user feature, compile, apply *)
   do cr <- user_ranges feat ufs;
   do p <- (match f_morx f with
-           | Some m => run_chains (f_num_glyphs f) d1 cr (mx_chains m) (mkP b1 ops0 0 [])
-           | None => Ok (mkP b1 ops0 0 [])
+           | Some m => run_chains (f_num_glyphs f) d1 cr (mx_chains m) (mkP b1 ops0 0 [] ecap)
+           | None => Ok (mkP b1 ops0 0 [] ecap)
            end);
   (* position(): reverse for a backward direction; then substitute_post removes deleted glyphs *)
   do b2 <- maybe_reverse (dir_backward d1) (p_buf p);
   let '(out, _) := delete_glyphs_inplace lvl is_deleted (arr b2) in
   Ok (mkShaped (map (fun i => (gid i, cluster i)) out) (p_amb p) (rev (p_events p))).
+
+Definition shape_morx_feat := shape_morx_feat_cap O.
 
 (* a font without `feat`: user features are ignored *)
 Definition shape_morx (f : font) (d : dir) (lvl : N) (text : list (N * N)) : result shaped :=
